@@ -19,6 +19,8 @@ import (
 	"sync/atomic"
 	"time"
 
+	"crypto/x509"
+
 	utls "github.com/refraction-networking/utls"
 	"verif/harness/vh"
 )
@@ -42,7 +44,8 @@ var serverGroups = []groupInfo{
 // keyShareHello rewrites base so that it offers TLS 1.3, lists group in supported_groups and carries exactly one key share
 // of that group with n bytes of key_exchange. layout: "last" (nothing follows the share), "small-after" (one 1-byte
 // extension follows), "first" (all other extensions follow). Padding and pre_shared_key are dropped.
-func keyShareHello(r *rand.Rand, base []byte, group uint16, n int, layout string) ([]byte, bool) {
+func keyShareHello(r *rand.Rand, base []byte, group uint16, n int, layout string, ensure ...uint16) ([]byte, bool) {
+	ensure = append(ensure, group)
 	w, ok := splitHello(base)
 	if !ok {
 		return nil, false
@@ -55,17 +58,22 @@ func keyShareHello(r *rand.Rand, base []byte, group uint16, n int, layout string
 			continue
 		case 10:
 			haveGroups = true
-			has := false
-			for i := 2; i+1 < len(x.data); i += 2 {
-				if binary.BigEndian.Uint16(x.data[i:]) == group {
-					has = true
+			d := append([]byte{}, x.data...)
+			for _, g := range ensure { // always in the order of `ensure`, so that two hellos built with the same list agree
+				has := false
+				for i := 2; i+1 < len(d); i += 2 {
+					if binary.BigEndian.Uint16(d[i:]) == g {
+						has = true
+					}
+				}
+				if !has && len(d) >= 2 {
+					d = append(d, byte(g>>8), byte(g))
 				}
 			}
-			if !has && len(x.data) >= 2 {
-				d := append(append([]byte{}, x.data...), byte(group>>8), byte(group))
+			if len(d) >= 2 {
 				binary.BigEndian.PutUint16(d, uint16(len(d)-2))
-				x.data = d
 			}
+			x.data = d
 		case 43:
 			haveVers = true
 			x.data = []byte{4, 3, 4, 3, 3}
@@ -73,7 +81,11 @@ func keyShareHello(r *rand.Rand, base []byte, group uint16, n int, layout string
 		exts = append(exts, x)
 	}
 	if !haveGroups {
-		exts = append(exts, wext{10, []byte{0, 2, byte(group >> 8), byte(group)}})
+		var l []byte
+		for _, g := range ensure {
+			l = append(l, byte(g>>8), byte(g))
+		}
+		exts = append(exts, wext{10, u16lp(l)})
 	}
 	if !haveVers {
 		exts = append(exts, wext{43, []byte{4, 3, 4, 3, 3}})
@@ -296,4 +308,269 @@ func runPostHandshake(c *vh.Ctx, r *rand.Rand) {
 		}
 	}
 	wg.Wait()
+}
+
+// ---------- (A2) the same share lengths in the SECOND ClientHello, after a server-issued HelloRetryRequest ----------
+
+var otherGroup = map[uint16][2]int{4588: {29, 32}, 29: {23, 65}, 23: {29, 32}, 24: {29, 32}, 25: {29, 32}} // group sent first, its size
+
+// readFlight reads until at least one complete handshake record arrived (the HelloRetryRequest) or the wait is over.
+func readFlight(conn net.Conn) []byte {
+	var got []byte
+	buf := make([]byte, 4096)
+	end := time.Now().Add(1500 * time.Millisecond)
+	for time.Now().Before(end) {
+		conn.SetReadDeadline(time.Now().Add(150 * time.Millisecond))
+		n, err := conn.Read(buf)
+		got = append(got, buf[:n]...)
+		for b := got; len(b) >= 5; {
+			l := int(b[3])<<8 | int(b[4])
+			if len(b) < 5+l {
+				break
+			}
+			if b[0] == 22 || b[0] == 21 {
+				return got
+			}
+			b = b[5+l:]
+		}
+		if err != nil && n == 0 {
+			if ne, ok := err.(net.Error); !ok || !ne.Timeout() {
+				return got
+			}
+		}
+	}
+	return got
+}
+
+func runKeyShareAfterHRR(c *vh.Ctx, r *rand.Rand) {
+	var bases [][]byte
+	for _, id := range []utls.ClientHelloID{utls.HelloGolang, utls.HelloChrome_133, utls.HelloFirefox_120} {
+		if raw, err := buildHello(id, "c34.test"); err == nil {
+			bases = append(bases, raw)
+		}
+	}
+	if len(bases) == 0 {
+		return
+	}
+	k := 0
+	for _, g := range serverGroups {
+		other := otherGroup[g.id]
+		lens := g.lens
+		if g.id != 4588 && c.Tier == "quick" {
+			lens = lens[:2]
+		}
+		for _, n := range lens {
+			k++
+			base := bases[k%len(bases)]
+			ensure := []uint16{uint16(other[0]), g.id}
+			h1, ok1 := keyShareHello(r, base, uint16(other[0]), other[1], "last", ensure...)
+			h2, ok2 := keyShareHello(r, base, g.id, n, "last", ensure...)
+			if !ok1 || !ok2 {
+				continue
+			}
+			cfg := serverConfig(srvCfgs[0])
+			cfg.CurvePreferences = []utls.CurveID{utls.CurveID(g.id)}
+			s1, s2 := record(22, 0x0301, h1), record(22, 0x0303, h2)
+			gotHRR := false
+			res, hung := withServer(cfg, func(conn net.Conn) {
+				conn.Write(s1)
+				flight := readFlight(conn)
+				gotHRR = len(flight) > 5 && flight[0] == 22
+				conn.SetDeadline(time.Now().Add(deadline))
+				conn.Write(s2)
+				if tc, ok := conn.(*net.TCPConn); ok {
+					tc.CloseWrite()
+				}
+			})
+			key := fmt.Sprintf("hello/keyshare-len-after-hrr/%s/%d", g.name, n)
+			judge(c, key, append(append([]byte{}, s1...), s2...), res, hung,
+				fmt.Sprintf("hello #1 lists %s but sends a share of group %d (server prefers only %s -> HelloRetryRequest), hello #2 = the same hello with a %d-byte %s share", g.name, other[0], g.name, n, g.name))
+			if gotHRR {
+				c.Count("keyshare-after-hrr-run/" + g.name)
+			} else {
+				c.Count("keyshare-after-hrr-no-hrr/" + g.name)
+			}
+		}
+	}
+}
+
+// ---------- (C) callback-bearing server configurations x ClientHellos that offer a PSK ----------
+
+type cbCfg struct {
+	name string
+	mk   func() *utls.Config
+}
+
+func cbConfigs() []cbCfg {
+	base := func(auth utls.ClientAuthType) *utls.Config {
+		s := srvCfgs[0]
+		s.clientAuth = auth
+		s.min = utls.VersionTLS12
+		return serverConfig(s)
+	}
+	return []cbCfg{
+		{"plain", func() *utls.Config { return base(utls.NoClientCert) }},
+		{"unwrap-wrap-session", func() *utls.Config {
+			cfg := base(utls.NoClientCert)
+			cfg.UnwrapSession = func(id []byte, cs utls.ConnectionState) (*utls.SessionState, error) { return cfg.DecryptTicket(id, cs) }
+			cfg.WrapSession = func(cs utls.ConnectionState, ss *utls.SessionState) ([]byte, error) { return cfg.EncryptTicket(cs, ss) }
+			return cfg
+		}},
+		{"unwrap-session-only", func() *utls.Config {
+			cfg := base(utls.RequestClientCert)
+			cfg.UnwrapSession = func(id []byte, cs utls.ConnectionState) (*utls.SessionState, error) { return cfg.DecryptTicket(id, cs) }
+			return cfg
+		}},
+		{"unwrap-session-rejecting", func() *utls.Config {
+			cfg := base(utls.NoClientCert)
+			cfg.UnwrapSession = func(id []byte, cs utls.ConnectionState) (*utls.SessionState, error) { return nil, nil }
+			return cfg
+		}},
+		{"get-config-for-client", func() *utls.Config {
+			cfg := base(utls.NoClientCert)
+			inner := base(utls.VerifyClientCertIfGiven)
+			inner.UnwrapSession = func(id []byte, cs utls.ConnectionState) (*utls.SessionState, error) {
+				return inner.DecryptTicket(id, cs)
+			}
+			inner.WrapSession = func(cs utls.ConnectionState, ss *utls.SessionState) ([]byte, error) {
+				return inner.EncryptTicket(cs, ss)
+			}
+			cfg.GetConfigForClient = func(*utls.ClientHelloInfo) (*utls.Config, error) { return inner, nil }
+			return cfg
+		}},
+		{"get-certificate", func() *utls.Config {
+			cfg := base(utls.NoClientCert)
+			cert := cfg.Certificates[0]
+			cfg.Certificates = nil
+			cfg.GetCertificate = func(*utls.ClientHelloInfo) (*utls.Certificate, error) { return &cert, nil }
+			return cfg
+		}},
+		{"verify-connection", func() *utls.Config {
+			cfg := base(utls.RequestClientCert)
+			cfg.VerifyConnection = func(cs utls.ConnectionState) error { _ = cs.PeerCertificates; return nil }
+			cfg.VerifyPeerCertificate = func([][]byte, [][]*x509.Certificate) error { return nil }
+			return cfg
+		}},
+		{"require-any-client-cert", func() *utls.Config { return base(utls.RequireAnyClientCert) }},
+	}
+}
+
+// pskHello appends psk_key_exchange_modes (if missing) and a pre_shared_key extension with garbage identities/binders.
+func pskHello(r *rand.Rand, base []byte, labelLen, nIds, binderLen int) ([]byte, bool) {
+	w, ok := splitHello(base)
+	if !ok {
+		return nil, false
+	}
+	var exts []wext
+	haveModes := false
+	for _, x := range w.exts {
+		if x.id == 41 || x.id == 21 {
+			continue
+		}
+		if x.id == 45 {
+			haveModes = true
+			x.data = []byte{1, 1}
+		}
+		exts = append(exts, x)
+	}
+	if !haveModes {
+		exts = append(exts, wext{45, []byte{1, 1}})
+	}
+	var ids, bs []byte
+	for i := 0; i < nIds; i++ {
+		ids = append(ids, u16lp(rbytes(r, labelLen))...)
+		ids = append(ids, rbytes(r, 4)...)
+		bs = append(bs, byte(binderLen))
+		bs = append(bs, rbytes(r, binderLen)...)
+	}
+	exts = append(exts, wext{41, append(u16lp(ids), u16lp(bs)...)})
+	w.exts, w.hasExts = exts, true
+	return w.bytes(0, 0), true
+}
+
+func runPskConfigs(c *vh.Ctx, r *rand.Rand) {
+	var bases [][]byte
+	for _, id := range []utls.ClientHelloID{utls.HelloGolang, utls.HelloChrome_133} {
+		if raw, err := buildHello(id, "c34.test"); err == nil {
+			bases = append(bases, raw)
+		}
+	}
+	type garbage struct{ label, n, binder int }
+	garb := []garbage{{1, 1, 32}, {16, 1, 32}, {100, 2, 48}, {300, 1, 32}, {2000, 3, 32}}
+	if c.Tier == "quick" {
+		garb = []garbage{{16, 1, 32}, {300, 2, 48}}
+	}
+	resumers := []struct {
+		name string
+		id   utls.ClientHelloID
+	}{{"Golang", utls.HelloGolang}, {"Chrome_100_PSK", utls.HelloChrome_100_PSK}, {"Chrome_112_PSK_Shuf", utls.HelloChrome_112_PSK_Shuf},
+		{"Chrome_114_Padding_PSK_Shuf", utls.HelloChrome_114_Padding_PSK_Shuf}, {"Chrome_115_PQ_PSK", utls.HelloChrome_115_PQ_PSK}}
+	for ci, cc := range cbConfigs() {
+		// garbage identities
+		for gi, g := range garb {
+			if len(bases) == 0 {
+				break
+			}
+			hello, ok := pskHello(r, bases[(ci+gi)%len(bases)], g.label, g.n, g.binder)
+			if !ok {
+				continue
+			}
+			script := record(22, 0x0301, hello)
+			res, hung := withServer(cc.mk(), func(conn net.Conn) {
+				conn.Write(script)
+				if tc, ok := conn.(*net.TCPConn); ok {
+					tc.CloseWrite()
+				}
+			})
+			judge(c, fmt.Sprintf("psk/%s/garbage-identity-%d", cc.name, g.label), script, res, hung,
+				fmt.Sprintf("server config %s; well-formed TLS 1.3 hello with psk_dhe_ke and %d garbage PSK identit(ies) of %d bytes, %d-byte binders", cc.name, g.n, g.label, g.binder))
+			c.Count("psk-run/" + cc.name)
+		}
+		// genuine resumption: a first connection fills the client session cache, the second offers the ticket
+		rs := resumers
+		if c.Tier == "quick" {
+			rs = []struct {
+				name string
+				id   utls.ClientHelloID
+			}{resumers[0], resumers[1+ci%4]}
+		}
+		for _, rp := range rs {
+			cache := utls.NewLRUClientSessionCache(4)
+			cfg := cc.mk() // the same Config (ticket keys, callbacks) serves both connections
+			clientCfg := func() *utls.Config {
+				return &utls.Config{InsecureSkipVerify: true, ServerName: "c34.test", ClientSessionCache: cache,
+					Certificates: []utls.Certificate{{Certificate: [][]byte{pki.LeafDER}, PrivateKey: pki.LeafKey}}}
+			}
+			connect := func(id utls.ClientHelloID) (res *srvResult, hung bool, cliErr error) {
+				res, hung = withServer(cfg, func(conn net.Conn) {
+					u := utls.UClient(conn, clientCfg(), id)
+					pn, pv := vh.Recover(func() { cliErr = u.Handshake() })
+					if pn {
+						cliErr = fmt.Errorf("client panic: %v", pv)
+					}
+					if cliErr == nil {
+						u.Write([]byte("x"))
+						conn.SetReadDeadline(time.Now().Add(300 * time.Millisecond))
+						u.Read(make([]byte, 64)) // lets the client process NewSessionTicket
+					}
+					conn.Close()
+				})
+				return
+			}
+			res, hung, err := connect(utls.HelloGolang)
+			judge(c, fmt.Sprintf("psk/%s/first-connection", cc.name), nil, res, hung, "first (ticket-issuing) connection, server config "+cc.name)
+			if err != nil {
+				c.Count("psk-first-connection-client-error/" + cc.name)
+				continue
+			}
+			res, hung, err = connect(rp.id)
+			judge(c, fmt.Sprintf("psk/%s/resumption-%s", cc.name, rp.name), nil, res, hung,
+				fmt.Sprintf("server config %s; %s client resumes the session of a previous connection (pre_shared_key with a genuine ticket); client error: %v", cc.name, rp.name, err))
+			if res != nil && res.hsErr == nil {
+				c.Count("psk-resumption-handshake-ok/" + rp.name)
+			} else {
+				c.Count("psk-resumption-handshake-error/" + rp.name)
+			}
+		}
+	}
 }
